@@ -2533,6 +2533,12 @@ func (r *RIB) Flush(networkInstances []string) error {
 		}
 
 		for _, id := range backupNHGs {
+			// The same backup NHG can be used by more than one NHG, and (since
+			// backup references are not validated) might not exist at all. Neither
+			// case means that the flush was unsuccessful.
+			if _, ok := niR.r.Afts.NextHopGroup[id]; !ok {
+				continue
+			}
 			delNHG(id)
 		}
 
